@@ -1226,6 +1226,31 @@ func runVal(c *h.Ctx, vc ValCase) {
 			if err = m.Add("k", v); err == nil {
 				node, err = m.GetNode("k")
 			}
+		case "args-builder":
+			var a *args.Args
+			if a, err = args.NewBuilder().Add("k", v).Build(); err == nil {
+				node, err = a.GetNode("k")
+			}
+		case "args-builder-ipld":
+			var n ipld.Node
+			if n, err = args.NewBuilder().Add("j", int64(1)).Add("k", v).BuildIPLD(); err == nil {
+				node, err = n.LookupByString("k")
+			}
+		case "with-argument":
+			var iv *invocation.Token
+			if iv, err = invocation.New(keys.Principal(0).DID, keys.Principal(1).DID, command.MustParse("/foo"), []cid.Cid{}, invocation.WithArgument("k", v)); err == nil {
+				node, err = iv.Arguments().GetNode("k")
+			}
+		case "with-meta-inv":
+			var iv *invocation.Token
+			if iv, err = invocation.New(keys.Principal(0).DID, keys.Principal(1).DID, command.MustParse("/foo"), []cid.Cid{}, invocation.WithMeta("k", v)); err == nil {
+				node, err = iv.Meta().GetNode("k")
+			}
+		case "with-meta-dlg":
+			var d *delegation.Token
+			if d, err = delegation.Root(keys.Principal(0).DID, keys.Principal(1).DID, command.MustParse("/foo"), policy.Policy{}, delegation.WithMeta("k", v)); err == nil {
+				node, err = d.Meta().GetNode("k")
+			}
 		case "list":
 			var l ipld.Node
 			if l, err = literal.List([]any{v}); err == nil {
@@ -1265,7 +1290,7 @@ func runVal(c *h.Ctx, vc ValCase) {
 		return
 	}
 	if err != nil {
-		if !mustReject && want != nil && vc.API != "meta" {
+		if !mustReject && want != nil && !strings.Contains(vc.API, "meta") {
 			// rejecting a representable value is allowed by "stored exactly or rejected"; only count it
 			c.P.Class("val/rejected-representable:" + vc.V.T)
 		}
@@ -1349,14 +1374,14 @@ func drawGoVal(t *rapid.T, depth int, label string) GoVal {
 }
 
 var valProp = h.Define(P, "values", func(t *rapid.T) ValCase {
-	return ValCase{V: drawGoVal(t, 2, "v"), API: rapid.SampledFrom([]string{"args", "meta", "any", "any", "list", "map"}).Draw(t, "api")}
+	return ValCase{V: drawGoVal(t, 2, "v"), API: rapid.SampledFrom([]string{"args", "meta", "any", "any", "list", "map", "args-builder", "args-builder-ipld", "with-argument", "with-meta-inv", "with-meta-dlg"}).Draw(t, "api")}
 }, runVal)
 
 func TestValues(t *testing.T) { valProp.Check(t) }
 
 // TestValueEdges: every integer type at every edge through every API.
 func TestValueEdges(t *testing.T) {
-	for _, api := range []string{"args", "meta", "any", "list", "map"} {
+	for _, api := range []string{"args", "meta", "any", "list", "map", "args-builder", "args-builder-ipld", "with-argument", "with-meta-inv", "with-meta-dlg"} {
 		for _, ty := range []string{"int", "int8", "int16", "int32", "int64", "myInt"} {
 			for _, e := range intEdges {
 				for _, ptr := range []bool{false, true} {
